@@ -122,8 +122,68 @@ def int_eval(t, env, depth=0):
         return tuple(out)
     if op == 'elem' and t.args and isinstance(t.args[0], T):
         return env.get(('elem', t.args[0].id), UNKNOWN)
+    if op == 'mutated' and isinstance(t.args[1], T) and t.args[1].op == 'call' and t.args[1].args[0].op == 'attr':
+        # a list after one in-place method call: order = list(range(n)); order.insert(0, order.pop())  ->  the list the calls leave behind
+        base = int_eval(t.args[0], env, depth + 1)
+        if base is UNKNOWN or not isinstance(base, tuple):
+            return UNKNOWN
+        call = t.args[1]
+        meth = call.args[0].args[1]
+        if any(a.op == 'star' for a in call.args[1]) or any(k is None for k, _ in call.args[2]):
+            return UNKNOWN
+        a = [int_eval(x, env, depth + 1) for x in call.args[1]]
+        kw_ = {k: int_eval(v, env, depth + 1) for k, v in call.args[2]}
+        if any(v is UNKNOWN for v in a) or any(v is UNKNOWN for v in kw_.values()):
+            return UNKNOWN
+        lst = list(base)
+        try:
+            if meth == 'insert' and len(a) == 2 and isinstance(a[0], int) and not kw_:
+                lst.insert(a[0], a[1])
+            elif meth == 'pop' and len(a) <= 1 and not kw_ and all(isinstance(x, int) for x in a):
+                lst.pop(*a)
+            elif meth == 'remove' and len(a) == 1 and not kw_:
+                lst.remove(a[0])
+            elif meth == 'append' and len(a) == 1 and not kw_:
+                lst.append(a[0])
+            elif meth == 'extend' and len(a) == 1 and isinstance(a[0], tuple) and not kw_:
+                lst.extend(a[0])
+            elif meth == 'reverse' and not a and not kw_:
+                lst.reverse()
+            elif meth == 'sort' and not a and set(kw_) <= {'reverse'}:
+                lst.sort(reverse=bool(kw_.get('reverse', False)))
+            elif meth == 'clear' and not a and not kw_:
+                lst = []
+            else:
+                return UNKNOWN
+        except (IndexError, ValueError, TypeError):
+            return UNKNOWN
+        return tuple(lst)
+    if op == 'call' and t.args[0].op == 'attr' and t.args[0].args[1] in ('pop', 'index', 'count') and not t.args[2] and not any(a.op == 'star' for a in t.args[1]):
+        # the value of xs.pop() / xs.pop(i) / xs.index(v) / xs.count(v) on a list that folds (the receiver is the list BEFORE the call)
+        base = int_eval(t.args[0].args[0], env, depth + 1)
+        a = [int_eval(x, env, depth + 1) for x in t.args[1]]
+        if isinstance(base, tuple) and not any(v is UNKNOWN for v in a):
+            try:
+                if t.args[0].args[1] == 'pop' and len(a) <= 1 and all(isinstance(x, int) for x in a):
+                    return list(base).pop(*a)
+                if t.args[0].args[1] == 'index' and len(a) == 1:
+                    return base.index(a[0])
+                if t.args[0].args[1] == 'count' and len(a) == 1:
+                    return base.count(a[0])
+            except (IndexError, ValueError):
+                return UNKNOWN
+        return UNKNOWN
     if op == 'call':
         nm, pos, kw = call_parts(t)
+        if nm == 'builtin.sorted' and len(pos) == 1 and set(kw) <= {'reverse'}:
+            v = int_eval(pos[0], env, depth + 1)
+            rv = int_eval(kw['reverse'], env, depth + 1) if 'reverse' in kw else False
+            if isinstance(v, tuple) and rv is not UNKNOWN:
+                try:
+                    return tuple(sorted(v, reverse=bool(rv)))
+                except TypeError:
+                    return UNKNOWN
+            return UNKNOWN
         if nm in ('builtin.range',) and not kw and 1 <= len(pos) <= 3:
             a = [int_eval(x, env, depth + 1) for x in pos]
             if any(v is UNKNOWN or not isinstance(v, int) for v in a) or (len(a) == 3 and a[2] == 0):
@@ -136,6 +196,9 @@ def int_eval(t, env, depth=0):
         if nm in ('builtin.tuple', 'builtin.list', 'builtin.sorted') and len(pos) == 1 and not kw:
             v = int_eval(pos[0], env, depth + 1)
             return (tuple(sorted(v)) if nm == 'builtin.sorted' else v) if isinstance(v, tuple) else UNKNOWN
+        if nm == 'builtin.reversed' and len(pos) == 1 and not kw:
+            v = int_eval(pos[0], env, depth + 1)
+            return tuple(reversed(v)) if isinstance(v, tuple) else UNKNOWN
         if nm in ('builtin.int', 'operator.index') and len(pos) == 1:
             return int_eval(pos[0], env, depth + 1)
         if nm in ('builtin.min', 'builtin.max', 'builtin.abs') and pos:
@@ -275,3 +338,87 @@ def chunk_coverage(iter_term, slice_term, extent_key, extents, env0=None):
         if missing or repeated:
             return False, T_, missing, repeated
     return (True, n) if n else None
+
+
+def trip_count_is(it, pname, values=(0, 1, 2, 3, 5)):
+    """the iterable `it` has exactly n elements whenever the parameter pname is n (range(n), range(1, n + 1), reversed(range(n)), range(n)[::-1], ...):
+    True / False by evaluation on a few values, None when the iterable cannot be folded"""
+    for n in values:
+        v = int_eval(it, {pname: n})
+        if v is UNKNOWN or not isinstance(v, tuple):
+            return None
+        if len(v) != n:
+            return False
+    return True
+
+
+def transpose_by_rank(axes_term, operand, ranks=(2, 3, 4, 5)):
+    """np.transpose(x, <axes computed from x.ndim>): the permutation for each rank in `ranks`, {rank: tuple}, or None when the axes cannot be folded (every `ndim`, `np.ndim`,
+    `len(x.shape)` in the expression must be the rank of the transposed operand itself).  A term without any rank in it gives the one permutation it denotes for its own length."""
+    from .terms import walk_terms
+    rank_terms = []
+    op0 = strip_views(operand)
+    for x in walk_terms(axes_term, into_mu=False):
+        src = None
+        if x.op == 'attr' and x.args[1] == 'ndim':
+            src = x.args[0]
+        elif is_call_to(x, 'numpy.ndim') and call_arg(x, 0) is not None:
+            src = call_arg(x, 0)
+        elif is_call_to(x, 'builtin.len') and call_arg(x, 0) is not None and strip_views(call_arg(x, 0)).op == 'attr' and strip_views(call_arg(x, 0)).args[1] == 'shape':
+            src = strip_views(call_arg(x, 0)).args[0]
+        if src is not None:
+            if strip_views(src) is not op0 and src is not operand:
+                return None
+            rank_terms.append(x)
+    out = {}
+    if not rank_terms:
+        v = int_eval(axes_term, {})
+        if v is UNKNOWN or not isinstance(v, tuple) or sorted(a % len(v) if isinstance(a, int) and v else None for a in v) != list(range(len(v))):
+            return None
+        return {len(v): tuple(a % len(v) for a in v)}
+    for n in ranks:
+        env = {('term', x.id): n for x in rank_terms}
+        v = int_eval(axes_term, env)
+        if v is UNKNOWN or not isinstance(v, tuple) or len(v) != n or not all(isinstance(a, int) and not isinstance(a, bool) for a in v) or sorted(a % n for a in v) != list(range(n)):
+            return None
+        out[n] = tuple(a % n for a in v)
+    return out
+
+
+def classify_permutations(perms):
+    """{rank: permutation} -> the reordering it is for EVERY rank: ('reverse',) / ('swap', {a, b}) / ('move', s, d) / ('perm', p) for a single rank / ('identity',); else None"""
+    if not perms:
+        return None
+    def moved(n, s, d):
+        order = list(range(n))
+        s_, d_ = s % n, d % n
+        a = order.pop(s_)
+        order.insert(d_, a)
+        return tuple(order)
+    if all(p == tuple(range(n)) for n, p in perms.items()):
+        return ('identity',)
+    if all(p == tuple(reversed(range(n))) for n, p in perms.items()) and any(n > 2 for n in perms):
+        return ('reverse',)
+    if len(perms) == 1:
+        (n, p), = perms.items()
+        return ('perm', p)
+    for a, b in ((-1, -2), (0, 1), (-2, -3), (-1, -3), (0, 2), (1, 2), (0, -1)):
+        ok = True
+        for n, p in perms.items():
+            if max(abs(a), abs(b)) > n or (a >= 0 and a >= n) or (b >= 0 and b >= n):
+                ok = False
+                break
+            q = list(range(n))
+            q[a % n], q[b % n] = q[b % n], q[a % n]
+            if tuple(q) != p:
+                ok = False
+                break
+        if ok:
+            return ('swap', frozenset((a, b)))
+    for s in (-1, -2, -3, 0, 1, 2):
+        for d in (0, -1, 1, -2, 2, -3):
+            if s == d:
+                continue
+            if all((s < n if s >= 0 else -s <= n) and (d < n if d >= 0 else -d <= n) and moved(n, s, d) == p for n, p in perms.items()):
+                return ('move', s, d)
+    return None
